@@ -64,18 +64,39 @@ def scenario(rng, nthreads):
     return lines
 
 
+def keyrace(rng):
+    """first use of a fresh key by several threads at the same moment (lazy creation of the native key is a race)"""
+    n = rng.randint(2, 5)
+    lines = ["keynew 1 1", "keynew 2 %d" % rng.randint(0, 1), "race %d" % n]
+    v = 200
+    for h in range(1, n + 1):
+        k = rng.randint(1, 2) if rng.random() < 0.3 else 1
+        first = rng.choice(["tset", "tset", "trepl", "tget"])
+        sub = ["bar 0 0", "%s %d %d" % (first, k, 0 if first == "tget" else v + 1), "tget %d 0" % k, "tset %d %d" % (k, v + 2), "tget %d 0" % k, "trepl %d %d" % (k, v + 3), "tget %d 0" % k,
+               "write %d" % (v + 4), "exit %d" % h]
+        v += 10
+        lines += ["T %d: %s" % (h, x) for x in sub]
+    lines += ["new %d 1" % h for h in range(1, n + 1)]
+    lines += ["go %d 1" % h for h in range(1, n + 1)]
+    lines += ["go %d 2" % h for h in range(1, n + 1)]
+    for h in range(1, n + 1):
+        lines += ["join %d" % h, "unref %d" % h]
+    lines.append("epoch")
+    return lines
+
+
 def run(ctx):
     rng = ctx.rng
     ctx.design_must_hold("sync/UThread.tla", expect_actions=["Create", "Start", "Exit", "OwnRefDrop", "Ref", "Unref", "Free", "JoinRet"], deadlock=False)
     files = []
     nscen = 60 if ctx.quick else 600
     for variant in (["default", "asan"] if ctx.quick else ["default", "asan", "sim"]):
-        exe = build.driver("drv_thread", ["drv_thread.c"], variant=variant)
+        exe = build.driver("drv_thread", ["drv_thread.c"], variant=variant, wraps=["pthread_key_create"])
         qenv = {"VERIF_QUARANTINE": "1"} if variant != "asan" else None
         for batch in range(3 if ctx.quick else 12):
             lines = []
             for _ in range(nscen // 3 if ctx.quick else nscen // 12):
-                lines += scenario(rng, rng.randint(1, 5))
+                lines += scenario(rng, rng.randint(1, 5)) if rng.random() < 0.7 else keyrace(rng)
             sp = ctx.path("th_%s_%d.script" % (variant, batch))
             open(sp, "w").write("\n".join(lines) + "\n")
             base = ctx.path("th_%s_%d" % (variant, batch))
@@ -131,6 +152,6 @@ def run(ctx):
                 raise Machinery("self-test: join returning before the thread exited was accepted")
             ctx.extra["selftest"] = "early join rejected"
     ctx.assumptions += ["handle identity is the block returned by p_uthread_create, tracked through the user allocator table",
-                        "orders are forced by script gates; the residual races (join vs. exit, key creation) are sampled",
+                        "orders are forced by script gates; first use of a fresh TLS key is raced through a spin barrier and a late-returning pthread_key_create (link-time wrapper); join vs. exit is sampled",
                         "the native TLS key kept by p_uthread_local_free is documented residue (not checked here)"]
     ctx.exhaustive = False
